@@ -123,9 +123,19 @@ impl StateSpace for SO2StateSpace {
 
     /// Modifies the state by clamping each of its values to the space's bounds.
     fn enforce_bounds(&self, state: &mut Self::StateType) {
-        state.normalise();
+        // normalise() returns the normalised state; keep an angle that is already canonical.
+        if !(-PI..=PI).contains(&state.value) {
+            *state = state.normalise();
+        }
 
         if self.satisfies_bounds(state) {
+            // Of the two representatives of the seam (-pi, pi) store the one inside the interval.
+            let (lower, upper) = self.bounds;
+            if state.value < lower {
+                state.value += 2.0 * PI;
+            } else if state.value > upper {
+                state.value -= 2.0 * PI;
+            }
             return;
         };
 
